@@ -373,6 +373,31 @@ def units_cycle(desc_models):
     return False
 
 
+def import_capture_cycle(main_models, lib_models):
+    """an imported units is given a NAME that its own definition (in the imported file) refers to, directly or through
+    other units of that file: flattening copies the definition under the new name and the reference now points at itself"""
+    for m in main_models:
+        for u in m.get("units", []):
+            if not u.get("import") or not u.get("importref") or u["importref"] == u["name"]:
+                continue
+            for lib in lib_models:
+                graph = {}
+                for v in lib.get("units", []):
+                    graph.setdefault(v["name"], v["refs"])
+                if u["importref"] not in graph:
+                    continue
+                seen, todo = set(), [u["importref"]]
+                while todo:
+                    n = todo.pop()
+                    for r in graph.get(n, []):
+                        if r == u["name"]:
+                            return True
+                        if r in graph and r not in seen:
+                            seen.add(r)
+                            todo.append(r)
+    return False
+
+
 def decode_describe(out):
     models = []
     dec = json.JSONDecoder()
@@ -389,6 +414,7 @@ def decode_describe(out):
             break
         for u in obj.get("units", []):
             u["name"] = hx(u["name"])
+            u["importref"] = hx(u.get("importref", ""))
             u["refs"] = [hx(r) for r in u["refs"]]
             u["dangling"] = [hx(r) for r in u.get("dangling", [])]
         obj["math"] = [hx(m) for m in obj.get("math", [])]
@@ -460,6 +486,10 @@ def classify(mode, d, bang, stage, models, verdicts):
     if ((v.startswith("CRASH") and kind == "stack-overflow") or v.startswith("TIMEOUT")) and stage in K3_STAGES and units_cycle(mine):
         return "C01-K3-units-cycle", "stage %s: %s on a cyclic units graph" % (
             stage, "no return within the time limit" if v.startswith("TIMEOUT") else "stack exhaustion (%s)" % top)
+    # flattening creates the cycle: an imported units renamed to a name its definition refers to
+    if ((v.startswith("CRASH") and kind == "stack-overflow") or v.startswith("TIMEOUT")) and stage in ("F", "FR", "FV", "FA", "FGc", "FGp") \
+            and import_capture_cycle([m for m in mine if not m["label"].endswith("lib")], [m for m in models if m["label"].endswith("lib")]):
+        return "C01-K3-cycle-made-by-flattening", "stage %s: stack exhaustion (%s): flattening renames an imported units to a name its definition refers to" % (stage, top)
     # a units whose <unit> references a name that is neither standard nor defined: referencedUnits(model, nullptr)
     if v.startswith("CRASH") and kind.startswith(NULL_KINDS) and "referencedUnits" in frames \
             and any(u["dangling"] for m in mine for u in m.get("units", [])):
